@@ -245,7 +245,7 @@ class dictattr(dict):
     def values(self):
         return list(super(dictattr, self).values())
     
-    def relabel(self, *args, **relabels):
+    def relabel(self, /, *args, **relabels):
         """
         easy relabel/rename of keys
 
@@ -282,13 +282,13 @@ class dictattr(dict):
         keys = relabel(list(self.keys()), *args, **relabels)
         return self._new({keys.get(k,k) : v for k, v in self.items()})
 
-    def rename(self, *args, **relabels):
+    def rename(self, /, *args, **relabels):
         """
         Identical to relabel. See relabel for full docs
         """
         return self.relabel(*args, **relabels)
     
-def relabel(keys, *args, **relabels):
+def relabel(keys, /, *args, **relabels):
     """
     returns a mapping from old keys to new keys
     
